@@ -271,7 +271,6 @@ End Inj.
 
 (* ---- iterating a finite template: as many pairwise different values as the size of its space -------------------- *)
 Theorem iter_count : forall cdec w t, hwf t = true -> wf_t t -> finite (dna_spec w t) = true ->
-  shallow w -> custom_concrete cdec ->
   (forall ck s1 s2 v1 v2, cdec ck s1 = Ok v1 -> cdec ck s2 = Ok v2 -> veq v1 v2 = true -> s1 = s2) ->
   distinguishable cdec w t ->
   let s := dna_spec w t in
@@ -283,7 +282,7 @@ Theorem iter_count : forall cdec w t, hwf t = true -> wf_t t -> finite (dna_spec
   (forall d1 d2 v1 v2, In d1 (iter s fuel) -> In d2 (iter s fuel) ->
      sdecode cdec w t d1 = Ok v1 -> sdecode cdec w t d2 = Ok v2 -> veq v1 v2 = true -> d1 = d2).
 Proof.
-  intros cdec w t Hh Hwf Hfin Hsh Hcc Hinj Hdi s fuel Hfuel.
+  intros cdec w t Hh Hwf Hfin Hinj Hdi s fuel Hfuel.
   assert (Hw : wf s = true) by (apply dna_spec_wf; auto).
   assert (E : iter s fuel = all_valid s) by (apply iter_exact_fuel; auto).
   rewrite E. repeat split; auto.
